@@ -1,13 +1,17 @@
-from pyvc.contracts import contract
+from pyvc.contracts import contract, REGISTRY
 from pyvc.shapes import *
 from specs.dwarf import StructsT, CUT
-from specs.lists import gaddr, word_at_addr, pair_off, loc_next
+from specs.lists import gaddr, word_at_addr, offset_word, is_kind, rnglist_at, loclist_at, has_base, base_of, loc_off, u16_at
 
-CUArg = Obj('CompileUnit', dwarfinfo=Obj('DWARFInfo', debug_addr_sec=Any), header=Rec(version=U16, address_size=U8), structs=StructsT)
-RE = lambda **f: Rec(**f)
-RLEntry = Rec(entry_offset=Nat, entry_length=Nat, entry_type=CodeT(8), address=Nat, start_offset=Nat, end_offset=Nat,
-              start_address=Nat, end_address=Nat, length=Nat, index=Nat, start_index=Nat, end_index=Nat)
-LLEntry = RLEntry.extend(loc_expr=ListOf(U8))
+DInfoT = Obj('DWARFInfo', debug_addr_sec=Any, structs=StructsT)
+CUArg = Obj('CompileUnit', cu_offset=Nat, dwarfinfo=DInfoT, header=Rec(version=U16, address_size=U8), structs=StructsT)
+COMMON = dict(entry_offset=Nat, entry_length=Nat, entry_end_offset=Nat, entry_type=CodeT(8))
+RangeEntryT = Rec('RangeEntry', entry_offset=Nat, entry_length=Nat, begin_offset=Int, end_offset=Int, is_absolute=Bool)
+RBaseT = Rec('BaseAddressEntry', entry_offset=Nat, base_address=Nat)
+LocEntryT = Rec('LocationEntry', entry_offset=Nat, entry_length=Nat, begin_offset=Int, end_offset=Int, loc_expr=ListOf(U8), is_absolute=Bool)
+LBaseT = Rec('BaseAddressEntry', entry_offset=Nat, entry_length=Nat, base_address=Nat)
+FIELD = dict(index=Nat, start_index=Nat, end_index=Nat, length=Nat, start_offset=Nat, end_offset=Nat, address=Nat,
+             start_address=Nat, end_address=Nat, loc_expr=ListOf(U8))
 
 
 @contract("elftools/dwarf/dwarfinfo.py", "DWARFInfo.get_addr", props=["C07"])
@@ -19,74 +23,112 @@ class get_addr:
     may_raise = ["DWARFError", "ELFParseError", "OverflowError"]
 
 
-def _tr(relpath, qual, params_shape, ensures, doc):
+def _tr(relpath, qual, kind, fields, ret, ensures, doc):
+    """contract of one entry translator: the parameter carries exactly the fields the DWARF entry
+    kind has (7.7.3 / 7.25), so reading any other field is an AttributeError on the proof path"""
+    shape = Rec(**dict(COMMON, **{f: FIELD[f] for f in fields}))
+
     @contract(relpath, qual, props=["C07"])
     class _t:
         __doc__ = doc
-        params = dict(e=params_shape, cu=CUArg)
-        returns = Any
+        params = dict(e=shape, cu=CUArg)
+        returns = ret
         may_raise = ["DWARFError", "ELFParseError", "OverflowError"]
-    _t_ensures = ensures
-    from pyvc.contracts import REGISTRY
-    REGISTRY[(relpath, qual)].ensures = list(ensures)
+    c = REGISTRY[(relpath, qual)]
+    c.ensures = ["is_kind(result, '%s')" % ret.kind, "result.entry_offset == e.entry_offset"] + list(ensures)
+    c.entry_kind = kind
     return _t
 
 
 R = "elftools/dwarf/ranges.py"
-_tr(R, "_translate_startx_length", RLEntry,
-    ["result.begin_offset == gaddr(cu, e.start_index)", "result.end_offset == gaddr(cu, e.start_index) + e.length",
-     "result.is_absolute == True", "result.entry_offset == e.entry_offset", "result.entry_length == e.entry_length"],
-    "DW_RLE_startx_length: [addr(start_index), addr(start_index) + length)")
-# lambdas of ranges.entry_translate in source order: base_address, offset_pair, start_end, start_length, base_addressx, startx_endx
-_tr(R, "<lambda>0", RLEntry, ["result.entry_offset == e.entry_offset", "result.base_address == e.address"], "DW_RLE_base_address")
-_tr(R, "<lambda>1", RLEntry, ["result.begin_offset == e.start_offset", "result.end_offset == e.end_offset",
-                              "result.is_absolute == False", "result.entry_length == e.entry_length"], "DW_RLE_offset_pair: relative to the base")
-_tr(R, "<lambda>2", RLEntry, ["result.begin_offset == e.start_address", "result.end_offset == e.end_address",
-                              "result.is_absolute == True"], "DW_RLE_start_end")
-_tr(R, "<lambda>3", RLEntry, ["result.begin_offset == e.start_address", "result.end_offset == e.start_address + e.length",
-                              "result.is_absolute == True"], "DW_RLE_start_length: [start, start + length)")
-_tr(R, "<lambda>4", RLEntry, ["result.base_address == gaddr(cu, e.index)", "result.entry_offset == e.entry_offset"], "DW_RLE_base_addressx")
-_tr(R, "<lambda>5", RLEntry, ["result.begin_offset == gaddr(cu, e.start_index)", "result.end_offset == gaddr(cu, e.end_index)",
-                              "result.is_absolute == True"], "DW_RLE_startx_endx")
+RNG = ["result.entry_length == e.entry_length"]
+_tr(R, "_translate_startx_length", 'DW_RLE_startx_length', ['start_index', 'length'], RangeEntryT,
+    RNG + ["result.begin_offset == gaddr(cu, e.start_index)", "result.end_offset == gaddr(cu, e.start_index) + e.length",
+           "result.is_absolute == True"], "DW_RLE_startx_length: [addr(start_index), addr(start_index) + length)")
+# lambdas of ranges.entry_translate in source order
+_tr(R, "<lambda>0", 'DW_RLE_base_address', ['address'], RBaseT, ["result.base_address == e.address"], "DW_RLE_base_address")
+_tr(R, "<lambda>1", 'DW_RLE_offset_pair', ['start_offset', 'end_offset'], RangeEntryT,
+    RNG + ["result.begin_offset == e.start_offset", "result.end_offset == e.end_offset", "result.is_absolute == False"],
+    "DW_RLE_offset_pair: relative to the base")
+_tr(R, "<lambda>2", 'DW_RLE_start_end', ['start_address', 'end_address'], RangeEntryT,
+    RNG + ["result.begin_offset == e.start_address", "result.end_offset == e.end_address", "result.is_absolute == True"],
+    "DW_RLE_start_end")
+_tr(R, "<lambda>3", 'DW_RLE_start_length', ['start_address', 'length'], RangeEntryT,
+    RNG + ["result.begin_offset == e.start_address", "result.end_offset == e.start_address + e.length",
+           "result.is_absolute == True"], "DW_RLE_start_length: [start, start + length)")
+_tr(R, "<lambda>4", 'DW_RLE_base_addressx', ['index'], RBaseT, ["result.base_address == gaddr(cu, e.index)"], "DW_RLE_base_addressx")
+_tr(R, "<lambda>5", 'DW_RLE_startx_endx', ['start_index', 'end_index'], RangeEntryT,
+    RNG + ["result.begin_offset == gaddr(cu, e.start_index)", "result.end_offset == gaddr(cu, e.end_index)",
+           "result.is_absolute == True"], "DW_RLE_startx_endx")
 
 L = "elftools/dwarf/locationlists.py"
-_tr(L, "_translate_startx_length", LLEntry,
-    ["result.begin_offset == gaddr(cu, e.start_index)", "result.end_offset == gaddr(cu, e.start_index) + e.length",
-     "result.is_absolute == True", "result.loc_expr is e.loc_expr", "result.entry_offset == e.entry_offset"],
-    "DW_LLE_startx_length")
-_tr(L, "<lambda>0", LLEntry, ["result.base_address == e.address", "result.entry_offset == e.entry_offset",
-                              "result.entry_length == e.entry_length"], "DW_LLE_base_address")
-_tr(L, "<lambda>1", LLEntry, ["result.begin_offset == e.start_offset", "result.end_offset == e.end_offset",
-                              "result.is_absolute == False", "result.loc_expr is e.loc_expr"], "DW_LLE_offset_pair")
-_tr(L, "<lambda>2", LLEntry, ["result.begin_offset == e.start_address", "result.end_offset == e.start_address + e.length",
-                              "result.is_absolute == True", "result.loc_expr is e.loc_expr"], "DW_LLE_start_length")
-_tr(L, "<lambda>3", LLEntry, ["result.begin_offset == e.start_address", "result.end_offset == e.end_address",
-                              "result.is_absolute == True"], "DW_LLE_start_end")
-_tr(L, "<lambda>4", LLEntry, ["result.begin_offset == -1", "result.end_offset == -1", "result.loc_expr is e.loc_expr"], "DW_LLE_default_location")
-_tr(L, "<lambda>5", LLEntry, ["result.base_address == gaddr(cu, e.index)"], "DW_LLE_base_addressx")
-_tr(L, "<lambda>6", LLEntry, ["result.begin_offset == gaddr(cu, e.start_index)", "result.end_offset == gaddr(cu, e.end_index)",
-                              "result.is_absolute == True", "result.loc_expr is e.loc_expr"], "DW_LLE_startx_endx")
+LOC = ["result.entry_length == e.entry_length", "result.loc_expr is e.loc_expr"]
+_tr(L, "_translate_startx_length", 'DW_LLE_startx_length', ['start_index', 'length', 'loc_expr'], LocEntryT,
+    LOC + ["result.begin_offset == gaddr(cu, e.start_index)", "result.end_offset == gaddr(cu, e.start_index) + e.length",
+           "result.is_absolute == True"], "DW_LLE_startx_length")
+_tr(L, "<lambda>0", 'DW_LLE_base_address', ['address'], LBaseT,
+    ["result.base_address == e.address", "result.entry_length == e.entry_length"], "DW_LLE_base_address")
+_tr(L, "<lambda>1", 'DW_LLE_offset_pair', ['start_offset', 'end_offset', 'loc_expr'], LocEntryT,
+    LOC + ["result.begin_offset == e.start_offset", "result.end_offset == e.end_offset", "result.is_absolute == False"],
+    "DW_LLE_offset_pair")
+_tr(L, "<lambda>2", 'DW_LLE_start_length', ['start_address', 'length', 'loc_expr'], LocEntryT,
+    LOC + ["result.begin_offset == e.start_address", "result.end_offset == e.start_address + e.length",
+           "result.is_absolute == True"], "DW_LLE_start_length")
+_tr(L, "<lambda>3", 'DW_LLE_start_end', ['start_address', 'end_address', 'loc_expr'], LocEntryT,
+    LOC + ["result.begin_offset == e.start_address", "result.end_offset == e.end_address", "result.is_absolute == True"],
+    "DW_LLE_start_end")
+_tr(L, "<lambda>4", 'DW_LLE_default_location', ['loc_expr'], LocEntryT,
+    LOC + ["result.begin_offset == -1", "result.end_offset == -1", "result.is_absolute == True"], "DW_LLE_default_location")
+_tr(L, "<lambda>5", 'DW_LLE_base_addressx', ['index'], LBaseT,
+    ["result.base_address == gaddr(cu, e.index)", "result.entry_length == e.entry_length"], "DW_LLE_base_addressx")
+_tr(L, "<lambda>6", 'DW_LLE_startx_endx', ['start_index', 'end_index', 'loc_expr'], LocEntryT,
+    LOC + ["result.begin_offset == gaddr(cu, e.start_index)", "result.end_offset == gaddr(cu, e.end_index)",
+           "result.is_absolute == True"], "DW_LLE_startx_endx")
 
 
-RLT = Obj('RangeLists', stream=Stream, structs=StructsT, _max_addr=Nat, version=Const(4), _dwarfinfo=Any)
+def kind_clauses(relpath, elem, src):
+    """for each entry kind: the translated element `elem` is what the kind's translator contract
+    states about the raw entry `src` (contract text reused, e -> src, result -> elem)"""
+    import re
+    out = []
+    for (rp, q), c in sorted(REGISTRY.items()):
+        if rp != relpath or not getattr(c, 'entry_kind', None):
+            continue
+        body = ' and '.join('(%s)' % x for x in c.ensures)
+        body = re.sub(r'\bresult\b', elem, body)
+        body = re.sub(r'\be\.', src + '.', body)
+        out.append("%s.entry_type != '%s' or (%s)" % (src, c.entry_kind, body))
+    return out
+
+
+RLT = Obj('RangeLists', stream=Stream, structs=StructsT, _max_addr=Nat, version=Choice(4, 5), _dwarfinfo=Any)
+RElemT = Tagged(RBaseT, RangeEntryT)
+V4R_INV = ["forall(lambda j: word_at_addr($B, $p + 2 * $W * j, $W) != 0 or word_at_addr($B, $p + 2 * $W * j + $W, $W) != 0, 0, %s)",
+           "forall(lambda j: lst[j].entry_offset == $p + 2 * $W * j, 0, %s)",
+           "forall(lambda j: is_kind(lst[j], 'BaseAddressEntry') == (word_at_addr($B, $p + 2 * $W * j, $W) == self._max_addr), 0, %s)",
+           "forall(lambda j: is_kind(lst[j], 'RangeEntry') == (word_at_addr($B, $p + 2 * $W * j, $W) != self._max_addr), 0, %s)",
+           "forall(lambda j: not is_kind(lst[j], 'BaseAddressEntry') or lst[j].base_address == word_at_addr($B, $p + 2 * $W * j + $W, $W), 0, %s)",
+           "forall(lambda j: not is_kind(lst[j], 'RangeEntry') or (lst[j].begin_offset == word_at_addr($B, $p + 2 * $W * j, $W)"
+           " and lst[j].end_offset == word_at_addr($B, $p + 2 * $W * j + $W, $W) and lst[j].entry_length == 2 * $W"
+           " and lst[j].is_absolute == False), 0, %s)"]
 
 
 @contract(R, "RangeLists._parse_range_list_from_stream", props=["C07"])
-class parse_range_list_v4:
-    """pre-v5 list: pairs of address-sized words up to (0, 0); a first word of all ones selects a base address"""
-    params = dict(self=RLT, cu=Any)
-    requires = ["self._max_addr == 2**(8 * self.structs.address_size) - 1",
-                "self.structs.address_size == 4 or self.structs.address_size == 8"]
+class parse_range_list:
+    """pre-v5 (7.7.3 of v4 / 2.17.3): pairs of address-sized words up to (0, 0); a first word of all ones is a
+    base address selection.  v5: the decoded entries (layout K2) translated kind by kind."""
+    params = dict(self=RLT, cu=CUArg)
+    requires = ["self._max_addr == 2**(8 * self.structs.address_size) - 1"]
     ghost = {"$B": "self.stream.B", "$p": "self.stream.pos", "$W": "self.structs.address_size"}
-    returns = ListOf(Any)
+    returns = ListOf(RElemT)
     loops = {0: dict(
-        invariant=["self.stream.pos == $p + 2 * $W * $k", "len(lst) == $k",
-                   "forall(lambda j: word_at_addr($B, $p + 2 * $W * j) != 0 or word_at_addr($B, $p + 2 * $W * j + $W) != 0, 0, $k)",
-                   "forall(lambda j: lst[j].entry_offset == $p + 2 * $W * j, 0, $k)"],
-        shapes={"lst": ListOf(Rec(entry_offset=Nat))},
-        step=["True"],
+        invariant=["self.stream.pos == $p + 2 * $W * $k", "len(lst) == $k"] + [x % '$k' for x in V4R_INV],
+        shapes={"lst": ListOf(RElemT)},
         variant="len($B) + 1 - self.stream.pos")}
-    ensures = ["word_at_addr($B, $p + 2 * $W * len(result)) == 0 and word_at_addr($B, $p + 2 * $W * len(result) + $W) == 0",
-               "forall(lambda j: word_at_addr($B, $p + 2 * $W * j) != 0 or word_at_addr($B, $p + 2 * $W * j + $W) != 0, 0, len(result))",
-               "forall(lambda j: result[j].entry_offset == $p + 2 * $W * j, 0, len(result))"]
-    may_raise = ["ELFParseError"]
+    maps = {0: dict(elem=RElemT, ensures=kind_clauses(R, 'value', 'entry'))}
+    ensures = ["self.version >= 5 or (word_at_addr($B, $p + 2 * $W * len(result), $W) == 0 and word_at_addr($B, $p + 2 * $W * len(result) + $W, $W) == 0)"] + \
+              ["self.version >= 5 or " + (x % 'len(result)').replace('lst[', 'result[') for x in V4R_INV] + \
+              ["self.version < 5 or len(result) == len(rnglist_at($B, $p))"] + \
+              ["self.version < 5 or forall(lambda j: %s, 0, len(result))" % c
+               for c in kind_clauses(R, 'result[j]', 'rnglist_at($B, $p)[j]')]
+    may_raise = ["ELFParseError", "DWARFError", "OverflowError"]
